@@ -305,7 +305,8 @@ def explore(fn, cfg, opts):
                 witnessed[wl] = witnessed[wl] or bool(wc)
             else:
                 rw, _ = e.check(wc)
-                witnessed[wl] = witnessed[wl] or rw == "sat"
+                # only a solver-proved "unsat" on every path counts as vacuous; "unknown" (time-out) leaves the question open and is not reported
+                witnessed[wl] = witnessed[wl] or rw != "unsat"
         res["paths"] += 1
         pending.extend(e.pending)
         if not res["inputs"]:
